@@ -20,6 +20,7 @@
 #include <fstream>
 #include <type_traits>
 #include <unistd.h>
+#include <sys/wait.h>
 #include <GeographicLib/Geodesic.hpp>
 #include <GeographicLib/GeodesicLine.hpp>
 #include <GeographicLib/GeodesicExact.hpp>
@@ -61,6 +62,8 @@
 #include "kissfft.hh"
 using namespace GeographicLib; using namespace gv;
 
+// the orchestrator splits #BAD lines at "::", so C++ qualified names in the details are written with "."
+static void BAD(const std::string& rel, std::string d) { size_t p; while ((p = d.find("::")) != std::string::npos) d.replace(p, 2, "."); bad(rel, d); }
 typedef std::vector<uint64_t> Res;
 static inline void P(Res& r, double x) { r.push_back(bits(x)); }
 static inline void Pi(Res& r, long long x) { r.push_back(uint64_t(x)); }
@@ -569,7 +572,7 @@ static void run_mt(const std::string& cls, int nth, int iters, uint64_t seed) {
   std::string img1 = S.image ? S.image() : std::string();
   long nmis = 0;
   for (int t = 0; t < nth; ++t) if (mis[t].n) { nmis += mis[t].n;
-      bad("thread-result-differs", "class=" + cls + " call=" + S.calls[mis[t].call].name + " thread=" + std::to_string(t) + " iteration=" + std::to_string(mis[t].iter) + " differs from the same thread's first result: got=" + show(mis[t].got) + " first=" + show(mis[t].exp) + " (" + std::to_string(mis[t].n) + " calls)"); }
+      BAD("thread-result-differs", "class=" + cls + " call=" + S.calls[mis[t].call].name + " thread=" + std::to_string(t) + " iteration=" + std::to_string(mis[t].iter) + " differs from the same thread's first result: got=" + show(mis[t].got) + " first=" + show(mis[t].exp) + " (" + std::to_string(mis[t].n) + " calls)"); }
   // solo: the shared instance alone, then a fresh instance that was never shared
   std::vector<Res> solo(nc); for (size_t i = 0; i < nc; ++i) runcall(S.calls[i], solo[i]);
   Suite F; try { F = (*mk)(seed, true); } catch (const std::exception&) {}
@@ -579,20 +582,55 @@ static void run_mt(const std::string& cls, int nth, int iters, uint64_t seed) {
   for (size_t i = 0; i < nc; ++i) {
     for (uint64_t v : solo[i]) { hsh ^= v; hsh *= 1099511628211ULL; ++nvals; }
     for (int t = 0; t < nth; ++t) if (first[t][i] != solo[i]) { ++nmis;
-        bad("thread-result-differs", "class=" + cls + " call=" + S.calls[i].name + " thread=" + std::to_string(t) + " of " + std::to_string(nth) + ": concurrent=" + show(first[t][i]) + " alone=" + show(solo[i])); break; }
+        BAD("thread-result-differs", "class=" + cls + " call=" + S.calls[i].name + " thread=" + std::to_string(t) + " of " + std::to_string(nth) + ": concurrent=" + show(first[t][i]) + " alone=" + show(solo[i])); break; }
     if (F.calls.size() == nc && fresh[i] != solo[i]) { ++nmis;
-      bad("shared-object-differs-from-fresh", "class=" + cls + " call=" + S.calls[i].name + ": on the object that was shared=" + show(solo[i]) + " on a fresh equal object=" + show(fresh[i])); }
+      BAD("shared-object-differs-from-fresh", "class=" + cls + " call=" + S.calls[i].name + ": on the object that was shared=" + show(solo[i]) + " on a fresh equal object=" + show(fresh[i])); }
   }
   if (img0 != img1) { ++nmis; size_t k = 0; while (k < img0.size() && img0[k] == img1[k]) ++k;
-    bad("const-call-modified-object", "class=" + cls + ": the object representation of the shared instance changed during concurrent const calls (first difference at byte " + std::to_string(k) + " of " + std::to_string(img0.size()) + ")"); }
+    BAD("const-call-modified-object", "class=" + cls + ": the object representation of the shared instance changed during concurrent const calls (first difference at byte " + std::to_string(k) + " of " + std::to_string(img0.size()) + ")"); }
   stat("calls", long(nc) * nth * iters); stat("values", nvals);
   char b[160]; std::snprintf(b, sizeof b, "%zu %ld %ld %016llx %zu", nc, long(nc) * nth * iters, nmis, (unsigned long long)hsh, img0.size());
   emit(b);
 }
 
+// Every mt op runs in a forked child (the parent never starts a thread and never touches the library): each op starts from a
+// pristine process, so singletons and lazily filled state are first touched concurrently in EVERY op, and a ThreadSanitizer
+// halt (exit code 66) or a crash ends only that op and is reported against it.
 static Reg r_mt("mt", [](const Args& a) {
   if (a.size() < 4) { bad("harness", "mt needs <class> <nthreads> <iters> <seed>"); return; }
-  run_mt(a[0], std::atoi(a[1].c_str()), std::atoi(a[2].c_str()), std::strtoull(a[3].c_str(), nullptr, 10));
+  int nth = std::atoi(a[1].c_str()), iters = std::atoi(a[2].c_str()); uint64_t seed = std::strtoull(a[3].c_str(), nullptr, 10);
+  if (std::getenv("GV_NOFORK")) { run_mt(a[0], nth, iters, seed); return; }
+  std::fflush(stdout); std::fflush(stderr);
+  int pfd[2]; if (pipe(pfd) != 0) { run_mt(a[0], nth, iters, seed); return; }
+  pid_t pid = fork();
+  if (pid < 0) { close(pfd[0]); close(pfd[1]); run_mt(a[0], nth, iters, seed); return; }
+  if (pid == 0) {
+    dup2(pfd[1], 2); close(pfd[0]); close(pfd[1]);
+    stats().clear();
+    run_mt(a[0], nth, iters, seed);
+    for (auto& kv : stats()) std::printf("#STAT %s %ld\n", kv.first.c_str(), kv.second);
+    std::fflush(stdout); _exit(0);
+  }
+  close(pfd[1]);
+  std::string err; char buf[4096]; ssize_t n;
+  while ((n = read(pfd[0], buf, sizeof buf)) > 0) { err.append(buf, size_t(n)); if (err.size() > (1u << 20)) err.erase(0, err.size() - (1u << 19)); }
+  close(pfd[0]);
+  int st = 0; waitpid(pid, &st, 0);
+  if (WIFEXITED(st) && WEXITSTATUS(st) == 0) return;
+  // what the sanitizer said: the SUMMARY line(s) and the two access stacks' top frames
+  std::string what;
+  { std::istringstream is(err); std::string l; int frames = 0;
+    while (std::getline(is, l)) {
+      if (l.find("SUMMARY:") != std::string::npos || l.find("WARNING: ThreadSanitizer") != std::string::npos || l.find("ERROR:") != std::string::npos) { what += l + " | "; }
+      else if ((l.find(" of size ") != std::string::npos && l.find(" by ") != std::string::npos)) { what += l + " "; frames = 2; }
+      else if (frames > 0 && l.find("#") != std::string::npos) { size_t p = l.find(" ("); what += l.substr(0, p == std::string::npos ? l.size() : p) + " | "; --frames; }
+      if (what.size() > 1500) break; } }
+  for (char& c : what) if (c == '\n' || c == '\r') c = ' ';
+  std::string how = WIFEXITED(st) ? ("exit code " + std::to_string(WEXITSTATUS(st)) + (WEXITSTATUS(st) == 66 ? " (ThreadSanitizer report)" : "")) : ("signal " + std::to_string(WTERMSIG(st)));
+  BAD("data-race-or-crash", "class=" + a[0] + ": the process running this op ended with " + how + " :: " + (what.empty() ? err.substr(err.size() > 600 ? err.size() - 600 : 0) : what));
+  (void)0;
+  stat("ops_ended_by_sanitizer_or_crash");
+  std::fwrite(err.data(), 1, std::min<size_t>(err.size(), 6000), stderr);
 });
 
 // the stage radices kissfft chooses for a transform length (compared in Lean with the model `kissRadices`, on which the
